@@ -86,7 +86,7 @@ pub fn wire_fault(rng: &mut Rng, n_envs: usize, levels: usize) -> WireFault {
                 WireFault::RawPk { delta: rng.range(0, 16) as i32 - 8, cseed: rng.next_u64() }
             }
         }
-        _ => rng.pick(&[WireFault::ModelMade, WireFault::Dup, WireFault::Drop]).clone(),
+        _ => rng.pick(&[WireFault::ModelMade, WireFault::Dup, WireFault::Drop, WireFault::Chain { n: 8, adjust_pk: false }, WireFault::Chain { n: 7, adjust_pk: true }, WireFault::Chain { n: 2, adjust_pk: true }]).clone(),
     }
 }
 fn retarget(f: Field, l: u8) -> Field {
@@ -255,6 +255,12 @@ pub fn wire_total(ctx: &GenCtx, rng: &mut Rng, run: u64) -> Option<Plan> {
     }
     for len in 0..=80i32 {
         plan.ops.push(Op::Deliver { env: 0, fault: WireFault::RawPk { delta: len - pklen as i32, cseed: rng.next_u64() }, entry: ALL_ENTRIES[len as usize % 3] });
+    }
+    // chains of 0..=10 well-formed elements (deeper than any valid signature)
+    for count in 0..=10u32 {
+        for adjust_pk in [false, true] {
+            plan.ops.push(Op::Deliver { env: 0, fault: WireFault::Chain { n: count, adjust_pk }, entry: ALL_ENTRIES[count as usize % 3] });
+        }
     }
     for h in PLAIN_HASHES {
         if h != hash {
@@ -665,6 +671,22 @@ pub fn purity(ctx: &GenCtx, rng: &mut Rng, run: u64) -> Plan {
                 };
                 plan.ops.push(Op::Recheck { op_ref, ctx: c });
             }
+        }
+    }
+    // twin lineage up to and past exhaustion: one copy of a small key lives in a SigningKey object and
+    // signs to the end of its life; every step is repeated from the persisted bytes through the byte API
+    if run % 3 == 0 {
+        let k = 0usize;
+        let hts: Vec<u32> = plan.keys[k].params.iter().map(|p| p.1).collect();
+        let leaves = 1u64 << hts.iter().sum::<u32>();
+        let tail = rng.range(2, 5).min(leaves);
+        plan.ops.push(Op::Inject { key: k, counter: leaves - tail });
+        plan.ops.push(Op::Load { proc: k, how: LoadAs::Object });
+        for _ in 0..tail + 1 {
+            let at = plan.ops.len();
+            plan.ops.push(Op::Sign { proc: k, msg: msg(rng, plan.keys[k].hash.n()), api: *rng.pick(&[Api::Obj, Api::ObjAux]), cb: Cb::Accept, aux: None });
+            plan.ops.push(Op::Recheck { op_ref: at, ctx: Context::OtherApi });
+            plan.ops.push(Op::Lifetime { proc: k });
         }
     }
     // at the end: every observed call once more, after all unrelated operations
